@@ -229,6 +229,8 @@ def st_segment(ops, base_dir, clock, files_model):
                     compare(full_model(loaded), after, before, what)
                     if not is_coll and max((len(z[2]) for z in after["mazes"]), default=0) > 127:
                         bump("probe_solution_longer_than_127")
+                    if not is_coll and max((max(max(c) for c in z[2]) for z in after["mazes"]), default=0) > 127:
+                        bump("probe_coordinate_above_127")
                     if not is_coll and any(len(z[2]) == 1 for z in after["mazes"]):
                         bump("probe_length1_solution")
                 elif name == "save":
@@ -306,6 +308,7 @@ def gen_history(rng: random.Random, tier: str) -> dict:
     if rng.random() < 0.7:
         ops.append(["threshold", rng.choice(thresholds)])
     long_paths = rng.random() < 0.12
+    far_corner = (not long_paths) and rng.random() < 0.08
     for i in range(n_ops):
         r = rng.random()
         if not slots or r < 0.2:
@@ -314,6 +317,11 @@ def gen_history(rng: random.Random, tier: str) -> dict:
                 # (the minimal formats store coordinates as int8 and lengths separately)
                 g = rng.choice([18, 20])
                 cfg = {"name": "long", "grid_n": g, "n_mazes": rng.randint(1, 3), "maze_ctor": "gen_dfs", "maze_ctor_kwargs": {}, "endpoint_kwargs": {"allowed_start": [[0, 0]], "allowed_end": [[g - 1, g - 1]]}, "seed": rng.randrange(1000), "applied_filters": []}
+            elif far_corner:
+                # large grids, kept cheap: a small constrained depth-first tree grown from the far corner, so that the
+                # solutions live at coordinates >= 127 (the minimal formats store coordinates in a narrow integer type)
+                g = rng.choice([127, 128, 129, 130, 200, 256, 257])
+                cfg = {"name": "far", "grid_n": g, "n_mazes": rng.randint(1, 3), "maze_ctor": "gen_dfs", "maze_ctor_kwargs": {"accessible_cells": rng.randint(6, 30), "start_coord": [g - 1, g - 1 - rng.randrange(3)]}, "endpoint_kwargs": {}, "seed": rng.randrange(1000), "applied_filters": []}
             else:
                 cfg = _ds.rand_cfgspec(rng, max_n=6, max_mazes=12, filters=False, rich_endpoints=False)
                 if rng.random() < 0.25:
